@@ -55,6 +55,14 @@ def scenarios(ctx):
                     steps += [{"op": "pick"} for _ in range(2 * W + 3)]
                     out.append({"id": "chg-%d" % j, "cfg": {"subject": "rr", "table": j}, "steps": steps})
                     j += 1
+    # (1d) extreme weights (as large as the trace arithmetic allows): common factors keep the rotation short
+    big = 1 << 28
+    for j, ws in enumerate([(big, big), (big, 2 * big), (3 * big, big, big), (big, 0, 2 * big), (2 * big + big, 3), (7, 7 * 9, 7 * 2)]):
+        W = R.W_of(ws)
+        if W > 400:
+            continue
+        steps = R.pool_setup_steps(rng, list(ws), history=False) + [{"op": "pick"} for _ in range(2 * W + 3)]
+        out.append({"id": "huge-%d" % j, "cfg": {"subject": "rr", "table": j}, "steps": steps})
     # (2) seeded pools, large weights, 2W+k selections, through NextServer and through ServeHTTP
     n = 120 if quick else 1500
     wcap = 300 if quick else 3000
